@@ -177,6 +177,11 @@ def long_input(rng, target_len, delim=None):
         big = bytes([rng.choice(b"wxyz")]) * rng.choice([131070, 131071, 131072, 131073, 140000, 262145])
         at = rng.choice([0, len(out)])
         out[at:at] = sep + big + sep
+    if rng.random() < 0.06:
+        # a very long run of consecutive separators (empty fields): skipped one by one, however many there are
+        sep = rng.choice([b"\n", b" "]) if delim is None else bytes([delim])
+        at = rng.choice([0, len(out) // 2, len(out)])
+        out[at:at] = sep * rng.choice([30000, 120000, 250000])
     if delim is None and rng.random() < 0.5:
         out += rng.choice([b"\n", b" ", b" \n"])
     return bytes(out)
